@@ -114,6 +114,16 @@ def main(ctx: Ctx, prop: str = "C07") -> int:
     cc = {"reg": "DISABLED", "raise": False, "run": "ARGUMENTS", "reroute": True}
     ccf = dict(cc, reroute=False)
     cases += [([cc, cc], [("batch", 0, [(1, 1), (1, 1)]), ("poll", 1), ("start", 0), ("poll", 1), ("start", 1)], 0),
+              # a lookup for a partially overlapping key must not disturb the index of the others (multi-pair intersection)
+              ([cc, cc], [("submit", 0, (1, 1)), ("poll", 1), ("start", 0), ("submit", 0, (1, 2)), ("poll", 1), ("start", 1),
+                          ("submit", 0, (2, 1)), ("poll", 2), ("submit", 0, (1, 1)), ("poll", 2), ("start", 3), ("poll", 2)], 0),
+              ([{"reg": "ARGUMENTS", "raise": False, "run": "DISABLED", "reroute": False}] * 2,
+               [("submit", 0, (1, 1)), ("submit", 0, (2, 2)), ("submit", 0, (1, 2)), ("submit", 0, (1, 1)), ("submit", 0, (2, 2)), ("submit", 0, (2, 1)), ("submit", 0, (1, 2))], 2),
+              # the SECOND duplicate of a batch running while a later same-key call arrives (every member of a batch must be indexed)
+              ([cc, cc], [("batch", 0, [(1, 1), (1, 1)]), ("poll", 1), ("start", 0), ("finish", 0), ("poll", 1), ("start", 1),
+                          ("submit", 0, (1, 1)), ("poll", 2), ("start", 2), ("poll", 2)], 0),
+              ([dict(cc, run="KEYS"), cc], [("batch", 0, [(2, 1), (1, 2), (2, 1), (2, 2)]), ("poll", 1), ("start", 0), ("finish", 0), ("poll", 1), ("start", 1),
+                                            ("poll", 1), ("start", 2), ("submit", 0, (2, 1)), ("poll", 2), ("poll", 2), ("poll", 2)], 1),
               ([cc, cc], [("submit", 0, (1, 1)), ("submit", 0, (1, 1)), ("poll", 1), ("start", 0), ("retry", 0), ("poll", 1), ("start", 1), ("poll", 1)], 0),
               ([ccf, ccf], [("submit", 0, (1, 1)), ("submit", 0, (1, 1)), ("poll", 1), ("kill", 0), ("poll", 1), ("start", 1), ("poll", 1)], 0),
               ([{"reg": "KEYS", "raise": True, "run": "DISABLED", "reroute": False}] * 2,
